@@ -125,3 +125,61 @@ func VerifHavocPools() {
 	}
 	decoderPool.Put(d)
 }
+
+// ---- C15(1): the depth budget. With a SYMBOLIC budget md the decoder is run on messages nested k levels:
+// a zero budget is refused before any input is read, the recursion never goes deeper than md+1 decoder frames
+// (so 1023 bounds the stack for any input), a budget that is too small yields the depth-limit error and a
+// sufficient one success; the cost per nesting level is at most 2 units for structs and 3 for struct-in-container.
+type vRec struct {
+	V    int32   `frugal:"1,default,i32"`
+	Next *vRec   `frugal:"2,optional,vRec"`
+	Kids []*vRec `frugal:"3,default,list<vRec>"`
+}
+
+func VerifDepthBudget() {
+	k := vrt.Param("k")
+	via := vrt.Param("via")
+	var pre, suf []byte
+	for l := 0; l < k; l++ {
+		if via == 0 {
+			pre = append(pre, 12, 0, 2)
+		} else {
+			pre = append(pre, 15, 0, 3, 12, 0, 0, 0, 1)
+		}
+		suf = append(suf, 0)
+	}
+	msg := append(pre, 8, 0, 1, 0, 0, 0, vrt.U8("leaf"), 0)
+	msg = append(msg, suf...)
+	var w vRec
+	rv := reflect.ValueOf(&w)
+	sd, err := getOrcreateStructDesc(rv)
+	vrt.Check(err == nil, "registration")
+	md := int(vrt.U16("md"))
+	vrt.Assume(md <= 40)
+	d := decoderPool.Get().(*tDecoder)
+	base := vrt.ResetMaxDepth()
+	n, derr := d.Decode(msg, unsafe.Pointer(&w), sd, md)
+	frames := vrt.MaxDepth() - base
+	decoderPool.Put(d)
+	cls := vrt.ErrClass(derr)
+	// Decode/decodeType frames alternate; helper calls add a constant
+	vrt.Check(frames <= uint64(md)+8 || !vrt.Symbolic(), "C15 recursion depth is bounded by the remaining budget")
+	if md == 0 {
+		vrt.Check(cls == 106 && n == 0, "C15 a zero budget is refused with the depth-limit error before reading input")
+		vrt.Reach("zero")
+	}
+	perLevel := 2
+	if via != 0 {
+		perLevel = 3
+	}
+	if md >= perLevel*k+2 {
+		vrt.Check(derr == nil && n == len(msg), "C15 a sufficient budget decodes the message")
+		vrt.Reach("enough")
+	} else if md <= k {
+		vrt.Check(cls == 106, "C15 an insufficient budget yields the depth-limit protocol error")
+		vrt.Reach("short")
+	} else {
+		vrt.Check(derr == nil || cls == 106, "C15 success or depth-limit error only")
+	}
+	vrt.Reach("end")
+}
